@@ -255,10 +255,20 @@ fn check_c16_case(case: &FileCase, env: &mut Env) -> Verdict {
     // now() is only exercised when the status word of the (zero-padded) content is a valid encoding:
     // a garbage status in a file with a valid header is outside every listed property and would be
     // undefined behaviour inside this harness process
+    // ... and whose record lies in the physically meaningful range C14 is stated for (timestamps
+    // within +-68 years, bound in [0, 2^60)): outside it the client's arithmetic may overflow, which
+    // no listed property forbids
     let status_ok = {
         let mut b = case.content.clone();
         b.resize(72, 0);
-        (0..=2).contains(&i32::from_ne_bytes(b[64..68].try_into().unwrap()))
+        let r = Rec::decode(&b[16..72]);
+        let m31 = 1i64 << 31;
+        (0..=2).contains(&r.status)
+            && r.as_of_s.abs() <= m31
+            && r.void_s.abs() <= m31
+            && (0..1_000_000_000).contains(&r.as_of_ns)
+            && (0..1_000_000_000).contains(&r.void_ns)
+            && (0..(1i64 << 60)).contains(&r.bound)
     };
     let huge = file_like && case.content.len() >= 16 && Hdr::decode(&case.content[..16]).size > (1 << 30);
 
